@@ -46,4 +46,43 @@ P['C05'] = dict(
     mismatch_meaning='result sequence or per-call consumption differs from the model proved total, progressing and split-independent: concrete stream and segmentation',
 )
 
+def find_bad_struct(root):
+    import subprocess, os
+    src = 'From GM Require Import Tables LayoutSpec Dialects TableLayout.\nEval vm_compute in (find_bad_struct structs).\n'
+    p = os.path.join(root, '.work', 'findbad.v')
+    open(p, 'w').write(src)
+    out = subprocess.run('timeout 300 coqc -Q coq GM ' + p, shell=True, cwd=root, stdout=subprocess.PIPE, stderr=subprocess.STDOUT).stdout.decode()
+    if '= []' in out.replace('\n', ' '):
+        return None
+    return 'message structs that no longer follow the MAVLink layout rules: ' + ' '.join(out.split())[:1500]
+
+P['C03'] = dict(
+    rule='every distinct message struct type of the 19 shipped dialects plus 18 user-defined structs with unusual shapes (mixed sizes, arrays, strings, plain char, extensions, enum arrays, mavname, 255-byte payload, invalid ones): CRCExtra(); probe encodings (each field and sampled array elements in turn set to a distinctive pattern, all others zero; all-zero; all-ones; random/boundary values) in v1 and v2; decoding of the encodings and of random full-size payloads. Non-trivial: the model produced bytes / a value / a CRC.',
+    assumptions=['reflect and sort.Slice are modelled: the regenerated struct descriptions stand for reflect, the order theorem covers any sorted permutation'],
+    mismatch_meaning='CRC_EXTRA or encoded/decoded layout differs from the model whose table instance is proved equal to the MAVLink rules: concrete message and value',
+    find_bad=find_bad_struct,
+)
+
+def find_bad_c17(root):
+    w = find_bad_struct(root)
+    import subprocess, os
+    src = ('From GM Require Import Tables Dialect LayoutSpec Dialects Enums TableDialects.\n'
+           'Eval vm_compute in (map gd_name (filter (fun gd => negb (dialect_ok gd)) shipped)).\n'
+           'Eval vm_compute in (filter (fun e => negb (const_agrees e)) enum_consts).\n'
+           'Eval vm_compute in (golden_mismatches "common").\n')
+    p = os.path.join(root, '.work', 'findbad17.v')
+    open(p, 'w').write(src)
+    out = subprocess.run('timeout 600 coqc -Q coq GM ' + p, shell=True, cwd=root, stdout=subprocess.PIPE, stderr=subprocess.STDOUT).stdout.decode()
+    flat = ' '.join(out.split())
+    if flat.count('= []') >= 3 and not w:
+        return None
+    return ((w or '') + ' | dialects failing init / disagreeing enum constants / golden CRC mismatches: ' + flat)[:2500]
+
+P['C17'] = dict(
+    rule='all 19 shipped dialects: Initialize, CRCExtra of every message, GetMessage for every defined id, its neighbours +-1, 300 (quick) / 20000 (thorough) random ids of the 2^24 space and the ids 2^24-1, 2^24, 2^32-1 (checking the returned codec belongs to the message with that id); 120 / 2000 user dialects built from random subsets with injected duplicate ids and malformed structs. Non-trivial: lookup found a codec or initialisation succeeded.',
+    assumptions=['Go map modelled as an association list (order irrelevant: ids unique after Initialize)'],
+    mismatch_meaning='dialect initialisation or id lookup differs from the model proved correct for every id: concrete dialect and id',
+    find_bad=find_bad_c17,
+)
+
 KNOWN_MATCH = {}
